@@ -17,7 +17,9 @@ from unit_scaling import optim as uo
 TAGS = ["weight", "bias", "norm", "output"]
 SHAPES = [[3], [1], [2, 3], [4, 4], [2, 3, 2], [5, 1]]
 
-lrs = st.floats(math.log(1e-4), math.log(10.0)).map(lambda v: float(f"{math.exp(v):.6g}")) | st.sampled_from([1.0, 0.5, 1e-3])
+# ("any positive lr": the range reaches down to 1e-10 - scaled learning rates below float32's eps must behave like any other)
+lrs = st.floats(math.log(1e-4), math.log(10.0)).map(lambda v: float(f"{math.exp(v):.6g}")) | st.sampled_from([1.0, 0.5, 1e-3, 1e-8, 3e-10]) | \
+    st.floats(math.log(1e-10), math.log(1e-4)).map(lambda v: float(f"{math.exp(v):.6g}"))
 wds = st.floats(0.0, 0.5).map(lambda v: round(v, 6)) | st.sampled_from([0.0, 0.5, 0.1, 0.01])
 
 
